@@ -75,7 +75,9 @@ CLASSES = {
             "_strict_types": BOOL,
             "_explicit_edges": ANY,
         },
-        "methods": {"iter_nodes": {"custom": lambda ex, recv, args, kwargs, s: _graph_iter_nodes(ex, recv, s)}},
+        "methods": {"iter_nodes": {"custom": lambda ex, recv, args, kwargs, s: _graph_iter_nodes(ex, recv, s)},
+                    "_shallow_copy": {"custom": lambda ex, recv, args, kwargs, s: _graph_shallow_copy(ex, recv, s)},
+                    "_get_emit_only_outputs": {"returns": SET(STR)}},
     },
     "InputSpec": {
         "module": "hypergraph.graph.input_spec", "file": "graph/input_spec.py",
@@ -247,6 +249,32 @@ def _graphstate_copy(ex, recv, s):
     yield s, new
 
 
+def _graph_shallow_copy(ex, recv, s):
+    """Graph._shallow_copy() -- ASSUMED contract (A4; `copy.copy` + `__dict__.pop` are outside the verified subset; the
+    class-wide static frame scan of C07 covers its body): a FRESH Graph with the same nodes, name, flags, selection and entry
+    points, and a FRESH `_bound` dict holding the same bindings."""
+    from pyvc.engine import alloc, alloc_dict
+    from pyvc.calls import copy_container
+    ex.model.used.add("ASSUMED contract Graph._shallow_copy(): fresh Graph, same immutable fields, fresh copy of _bound")
+    new = alloc(s, "Graph", OBJ("Graph"))
+    s.assume(smt.inst_pred("Graph")(new.t))
+    for attr in ("_nodes", "name", "_strict_types", "_selected", "_entrypoints", "_nx_graph", "outputs", "_explicit_edges"):
+        src = ex.read_attr(recv, attr, ANY, s)
+        if attr in s.heap.f:
+            s.heap = s.heap.with_field(attr, z3.Store(s.heap.f[attr], new.t, src.t))
+        else:
+            s.assume(smt.attr_func(attr)(new.t) == src.t)
+    src = ex.read_attr(recv, "_bound", DICT(STR, ANY), s)
+    d = alloc_dict(s, STR, ANY)
+    copy_container(s, "d", src.t, d.t)
+    if "_bound" in s.heap.f:
+        s.heap = s.heap.with_field("_bound", z3.Store(s.heap.f["_bound"], new.t, d.t))
+    else:
+        s.assume(smt.attr_func("_bound")(new.t) == d.t)
+    s.trace.append(("call", "._shallow_copy", {"self": recv}))
+    yield s, new
+
+
 def _graph_iter_nodes(ex, recv, s):
     """Graph.iter_nodes() (graph/core.py: `return self._nodes.values()`, one line, inlined): the values view of _nodes."""
     from pyvc.calls import call_method_val
@@ -347,7 +375,21 @@ def _lib_iskeyword(ex, args, kwargs, s):
     yield s, BVal(z3.Function("kw_iskeyword", smt.V, z3.BoolSort())(to_v(args[0], s)))
 
 
+def _lib_dict_fromkeys(ex, args, kwargs, s):
+    """dict.fromkeys(iterable) (assumed contract A4: elements hashable, no exception): a fresh dict; only its existence is
+    used by the verified code (de-duplication preserving order feeds `tuple(...)`)."""
+    from pyvc.engine import alloc_dict
+    s.trace.append(("call", "dict.fromkeys", {"args": args}))
+    d = alloc_dict(s, ANY, ANY)
+    h = s.heap
+    s.heap = h.with_comp("dh", z3.Store(h.c["dh"], d.t, z3.Const(smt.fresh_name("fk_dh"), z3.ArraySort(smt.V, z3.BoolSort())))).with_comp(
+        "dn", z3.Store(h.c["dn"], d.t, smt.fresh_int("fk_dn")))
+    s.assume(*smt.heap_wellformed_ref(s.heap, d.t, "d"))
+    yield s, d
+
+
 LIBRARY = {
+    "None.dict.fromkeys": _lib_dict_fromkeys,
     "None.frozenset.__contains__": _lib_iskeyword,
     "_hashlib.compare_digest": _lib_compare_digest,
     "hmac.compare_digest": _lib_compare_digest,
